@@ -6,7 +6,7 @@
 # Prints a summary and writes <mutant-dir>/verify.json.
 set -u
 mdir="$(realpath "$1")"; id="$2"; tier="${3:-quick}"
-wt=/tmp/wt-main
+wt=${SEED_WT:-/tmp/wt-seed}
 [ -d "$wt" ] || git -C /repo worktree add --detach "$wt" HEAD >/dev/null 2>&1
 git -C "$wt" reset -q --hard HEAD; git -C "$wt" clean -qfd -e .vh -e target >/dev/null
 export CARGO_NET_OFFLINE=true RUST_BACKTRACE=0
